@@ -297,6 +297,57 @@ pub fn cases(seed: u64, tier: Tier) -> Cases {
         cs.push("dtparse", format!("dtparse {}", hex(s.as_bytes())), real, true, format!("DateTime::<Utc>::from_plain({:?})", s));
     }
 
+    // ---- bearer tokens and resource identifiers: the PLAIN text is the string itself, whichever way the value was made
+    {
+        let n = if tier == Tier::Quick { 80 } else { 2000 };
+        let alpha: Vec<char> = "abzAZ09-._~+/".chars().collect();
+        for i in 0..n {
+            let body: String = (0..1 + rng.below(12)).map(|_| *rng.pick(&alpha)).collect();
+            let s = format!("{}{}", body, "=".repeat(i % 4));
+            let made: Vec<(&str, Option<conjure_object::BearerToken>)> = vec![
+                ("from_str", s.parse().ok()),
+                ("from_plain", conjure_object::BearerToken::from_plain(&s).ok()),
+                ("deserialize", conjure_serde::json::client_from_str(&serde_json::to_string(&s).unwrap()).ok()),
+            ];
+            cs.push("token-text", "noop".into(), "noop".into(), true, format!("bearer token {:?} made three ways, printed and parsed back", s));
+            for (how, t) in made {
+                match t {
+                    None => cs.fail_last("token:valid-rejected", format!("the valid token {:?} is rejected by {}", s, how)),
+                    Some(t) => {
+                        let text = t.to_plain();
+                        let back = conjure_object::BearerToken::from_plain(&text);
+                        if text != s || t.as_str() != s {
+                            cs.fail_last("token:text-differs", format!("token {:?} made by {} prints {:?} (as_str {:?})", s, how, text, t.as_str()));
+                        } else if back.as_ref().ok() != Some(&t) || back.as_ref().map(|b| b.to_plain()).ok() != Some(s.clone()) {
+                            cs.fail_last("token:roundtrip", format!("from_plain(to_plain(token {:?} made by {})) = {:?}", s, how, back.map(|b| b.to_plain())));
+                        }
+                    }
+                }
+            }
+            let r = format!("ri.{}.{}.{}.{}", ["a", "svc-1", "s9"][i % 3], ["", "inst", "i-2"][i % 3], ["t", "type-x"][i % 2], ["l", "L_1.x.y", "a.b", "-._"][i % 4]);
+            let made: Vec<(&str, Option<conjure_object::ResourceIdentifier>)> = vec![
+                ("from_str", r.parse().ok()),
+                ("from_plain", conjure_object::ResourceIdentifier::from_plain(&r).ok()),
+                ("deserialize", conjure_serde::json::client_from_str(&serde_json::to_string(&r).unwrap()).ok()),
+            ];
+            cs.push("rid-text", "noop".into(), "noop".into(), true, format!("rid {:?} made three ways, printed and parsed back", r));
+            for (how, t) in made {
+                match t {
+                    None => cs.fail_last("rid:valid-rejected", format!("the valid rid {:?} is rejected by {}", r, how)),
+                    Some(t) => {
+                        let text = t.to_plain();
+                        let back = conjure_object::ResourceIdentifier::from_plain(&text);
+                        if text != r {
+                            cs.fail_last("rid:text-differs", format!("rid {:?} made by {} prints {:?}", r, how, text));
+                        } else if back.as_ref().ok() != Some(&t) {
+                            cs.fail_last("rid:roundtrip", format!("from_plain(to_plain(rid {:?} made by {})) = {:?}", r, how, back.map(|b| b.to_plain())));
+                        }
+                    }
+                }
+            }
+        }
+    }
+
     // ---- generated aliases and enums (compiled from gen/ir/verif.json by /repo's generator)
     {
         use verifgen::plain as g;
@@ -309,8 +360,18 @@ pub fn cases(seed: u64, tier: Tier) -> Cases {
             alias_rt(&mut cs, "IntAlias", &iv, g::IntAlias, Some(format!("i32 {}", iv)));
             let b = i % 2 == 0;
             alias_rt(&mut cs, "BoolAlias", &b, g::BoolAlias, Some(format!("bool {}", b as u8)));
-            let sl = conjure_object::SafeLong::new([0, 9007199254740991, -9007199254740991, rng.range(-9007199254740991, 9007199254740991)][i % 4]).unwrap();
-            alias_rt(&mut cs, "SafeAlias", &sl, g::SafeAlias, None);
+            let slv = [0, 9007199254740991, -9007199254740991, rng.range(-9007199254740991, 9007199254740991)][i % 4];
+            cs.push("safelong", "noop".into(), "noop".into(), slv.abs() > 1 << 52, format!("SafeLong {} constructed, printed and parsed back", slv));
+            match guarded(|| (conjure_object::SafeLong::new(slv), conjure_object::SafeLong::from_plain(&slv.to_string()))) {
+                Err(p) => cs.fail_last("safelong:panic", format!("SafeLong {}: {}", slv, p)),
+                Ok((Ok(sl), Ok(parsed))) => {
+                    if parsed != sl || sl.to_plain() != slv.to_string() || *sl != slv {
+                        cs.fail_last("safelong:roundtrip", format!("SafeLong::new({}) prints {:?}; from_plain of the decimal text gives {:?}", slv, sl.to_plain(), parsed));
+                    }
+                    alias_rt(&mut cs, "SafeAlias", &sl, g::SafeAlias, None);
+                }
+                Ok((a, b)) => cs.fail_last("safelong:valid-rejected", format!("{} lies within ±(2^53 - 1) but SafeLong::new gives {:?} and from_plain gives {:?}", slv, a.map(|x| *x), b.map(|x| *x))),
+            }
             let mut ub = [0u8; 16];
             for x in ub.iter_mut() {
                 *x = rng.next() as u8;
